@@ -828,7 +828,9 @@ pub fn run(cfg: Config, body: impl FnOnce(&Ctx)) -> ! {
         poll_io: cfg.poll_io,
         stale_polls: 0,
         spin_quantum: 20_000,
-        sched_files: cfg.sched_files.clone(),
+        // MAYV_SCHED_ALL=1: every hook point is a schedule point whatever the scenario restricted (oracle-only runs:
+        // no acceptor follows a lower layer that is not atomic)
+        sched_files: if std::env::var("MAYV_SCHED_ALL").is_ok() { vec![] } else { cfg.sched_files.clone() },
         oracle_fail: vec![],
         stall_n: cfg.stall_n,
         stall_ns: cfg.stall_ns.clone(),
